@@ -565,7 +565,136 @@ func runC13Wide(r *core.Run) {
 	s.Done()
 }
 
+// runC13Deep: chains of EVERY depth 1..maxD (each level one container holding a leaf and the next level): Walk must enter
+// and leave every node exactly once, in depth-first order, at any depth; with a walker that answers SkipChildren, Stop or
+// an error at one level (every level for small depths, else top / middle / bottom) the visit sequence must be the model's.
+func runC13Deep(r *core.Run) {
+	maxD := core.Pick(r, 300, 3000)
+	s := r.Sub("deep-chains", fmt.Sprintf("for EVERY depth d = 1..%d: a chain of d nested containers (block quotes, list items and emphasis nodes in turn), each holding a text leaf before and after the next level; the unscripted Walk and Walks whose visitor answers SkipChildren / Stop / error on entering, or Stop / error on leaving, the container at one level (every level for d <= 12, else levels 1, d/2, d-1, d): visit sequence and returned error equal the model walk", maxD))
+	errX := fmt.Errorf("walker error")
+	core.ForEachIndex(maxD, core.Workers(), func(w int) func(int) {
+		return func(di int) {
+			d := di + 1
+			// build
+			var conts []ast.Node
+			var root ast.Node
+			var cur ast.Node
+			for l := 0; l < d; l++ {
+				var c ast.Node
+				switch l % 3 {
+				case 0:
+					c = ast.NewBlockquote()
+				case 1:
+					c = ast.NewListItem(0)
+				default:
+					c = ast.NewEmphasis(1)
+				}
+				conts = append(conts, c)
+				if cur == nil {
+					root = c
+				} else {
+					cur.AppendChild(cur, ast.NewText())
+					cur.AppendChild(cur, c)
+					cur.AppendChild(cur, ast.NewText())
+				}
+				cur = c
+			}
+			cur.AppendChild(cur, ast.NewText())
+			// model walk: events as (node, entering)
+			type ev struct {
+				n  ast.Node
+				in bool
+			}
+			type script struct {
+				level  int // -1 none
+				onExit bool
+				ans    ast.WalkStatus
+				err    error
+			}
+			var model func(n ast.Node, sc script, out *[]ev) (stop bool, err error)
+			model = func(n ast.Node, sc script, out *[]ev) (bool, error) {
+				*out = append(*out, ev{n, true})
+				isTarget := sc.level >= 0 && n == conts[sc.level]
+				skip := false
+				if isTarget && !sc.onExit {
+					if sc.err != nil {
+						return true, sc.err
+					}
+					if sc.ans == ast.WalkStop {
+						return true, nil
+					}
+					skip = sc.ans == ast.WalkSkipChildren
+				}
+				if !skip {
+					for c := n.FirstChild(); c != nil; c = c.NextSibling() {
+						if stop, err := model(c, sc, out); stop {
+							return true, err
+						}
+					}
+				}
+				*out = append(*out, ev{n, false})
+				if isTarget && sc.onExit {
+					if sc.err != nil {
+						return true, sc.err
+					}
+					if sc.ans == ast.WalkStop {
+						return true, nil
+					}
+				}
+				return false, nil
+			}
+			levels := map[int]bool{}
+			if d <= 12 {
+				for l := 0; l < d; l++ {
+					levels[l] = true
+				}
+			} else {
+				for _, l := range []int{0, d / 2, d - 2, d - 1} {
+					levels[l] = true
+				}
+			}
+			scripts := []script{{level: -1}}
+			for l := range levels {
+				scripts = append(scripts, script{l, false, ast.WalkSkipChildren, nil}, script{l, false, ast.WalkStop, nil}, script{l, false, ast.WalkContinue, errX},
+					script{l, true, ast.WalkStop, nil}, script{l, true, ast.WalkContinue, errX})
+			}
+			for _, sc := range scripts {
+				var want []ev
+				_, wantErr := model(root, sc, &want)
+				var got []ev
+				gotErr := ast.Walk(root, func(n ast.Node, entering bool) (ast.WalkStatus, error) {
+					got = append(got, ev{n, entering})
+					if len(got) > 4*len(want)+16 {
+						return ast.WalkStop, nil // runaway
+					}
+					if sc.level >= 0 && n == conts[sc.level] && entering == !sc.onExit {
+						return sc.ans, sc.err
+					}
+					return ast.WalkContinue, nil
+				})
+				s.Evals.Add(1)
+				same := len(got) == len(want) && gotErr == wantErr
+				for i := 0; same && i < len(got); i++ {
+					same = got[i] == want[i]
+				}
+				if !same {
+					hist := []string{fmt.Sprintf("chain of depth %d", d), fmt.Sprintf("walker script: level=%d onExit=%v answer=%v err=%v", sc.level, sc.onExit, sc.ans, sc.err)}
+					s.Violate("walk-differs-from-model:deep", "", nil, hist, fmt.Sprintf("Walk produced %d events (err=%v), the model %d (err=%v)", len(got), gotErr, len(want), wantErr), "", "")
+					return
+				}
+			}
+			s.States.Add(1)
+			s.Distinct(core.Hash([]byte(fmt.Sprint(d))))
+		}
+	}, r.Expired)
+	s.AddSample([]string{"bq := NewBlockquote(); li := NewListItem(0); bq.Append(text, li, text); ... depth d", "ast.Walk(bq, visitor answering SkipChildren at level d/2)"})
+	s.Bound = fmt.Sprintf("depth 1..%d", maxD)
+	s.Transitions.Store(s.Evals.Load())
+	s.Done()
+}
+
 func runC13(r *core.Run) {
+	runC13Deep(r)
 	runC13Wide(r)
 	npool := core.Pick(r, 6, 7)
 	c13Parents = core.Pick(r, 3, 4)
